@@ -9,7 +9,9 @@ From TD Require Import Lib.GoSem Gen.SessionGuard Model.Session Proof.Session.
 Import ListNotations.
 Open Scope Z_scope.
 
-(* For ALL histories of notifications (primary, non-primary, CDN, PFS on/off),
+(* For ALL histories of notifications (primary, non-primary, CDN, PFS on/off; a notification
+   may have a concurrent Migrate land inside it, between onSession's store and saveSession's
+   write: event ENotifyMig, [ev_notif] gives the notification of either kind),
    migrations and restores: every record written to the storage is exactly
    (ThisDC, key to persist, salt) of the notification delivered at that step, that
    notification came through the regular handler (never the CDN handler), and the guard was
@@ -19,7 +21,7 @@ Theorem C30_saved_from_primary_notification :
   forall (K : Type) (kzero kvalid : K -> bool) (k0 : K)
          (h : list (@event K)) (st : @state K) (i : nat) (sv : @sess K),
     nth_error (snd (run kzero kvalid k0 st h)) i = Some (Some sv) ->
-    exists n, nth_error h i = Some (ENotify n) /\ n_h n = HRegular /\
+    exists e n, nth_error h i = Some e /\ ev_notif e = Some n /\ n_h n = HRegular /\
               sv = mkSess (n_dc n) (save_key kzero n) (n_salt n) /\
               (n_dc n = 0 \/ s_dc (cur (state_at kzero kvalid k0 st h i)) = 0 \/
                s_dc (cur (state_at kzero kvalid k0 st h i)) = n_dc n).
@@ -43,14 +45,16 @@ Print Assumptions C30_saved_dc_is_primary.
    connection's DC; the refutation below is the dishonest case ThisDC = 0.  Each notification
    is handled atomically in the model: onSession reads the primary DC and stores the session
    in two critical sections and saveSession is load-modify-save; every Save is internally
-   consistent, but "primary at that time" is the value onSession read (a concurrent Migrate
-   is not interleaved inside a notification -- assumption, the harness drives handlers
-   sequentially). *)
+   consistent, and "primary at that time" is the value onSession read.  A Migrate landing
+   between onSession's store and saveSession's write IS modelled (ENotifyMig) and forced in
+   the run through the storage's LoadSession: the record still comes from the notification
+   (cfg, s), never from the in-memory session that has moved on.  Other interleavings inside a
+   notification are not modelled. *)
 Theorem C30_saved_is_connection_dc :
   forall (K : Type) (kzero kvalid : K -> bool) (k0 : K)
          (h : list (@event K)) (st : @state K) (i : nat) (sv : @sess K),
     nth_error (snd (run kzero kvalid k0 st h)) i = Some (Some sv) ->
-    exists n, nth_error h i = Some (ENotify n) /\ n_h n = HRegular /\
+    exists e n, nth_error h i = Some e /\ ev_notif e = Some n /\ n_h n = HRegular /\
               s_key sv = save_key kzero n /\ s_salt sv = n_salt n /\
               (honest n -> s_dc sv = n_conn n).
 Proof. exact (@saved_is_connection_dc). Qed.
@@ -138,6 +142,12 @@ Example C30_non_primary_ignored :
   snd (run (fun k => k =? 0) (fun _ => true) 0 (init 0 2)
            [ENotify (mkNotif HRegular 2 2 1 0 11 false); ENotify (mkNotif HRegular 4 4 2 0 22 false); ENotify (mkNotif HCdn 2 2 3 0 33 false)])
   = [Some (mkSess 2 1 11); None; None].
+Proof. vm_compute. reflexivity. Qed.
+
+(* a Migrate landing inside a notification does not change what is persisted *)
+Example C30_migrate_inside_notification :
+  run (fun k => k =? 0) (fun _ => true) 0 (init 0 2) [ENotifyMig (mkNotif HRegular 2 2 1 0 11 false) 4]
+  = (mkState (mkSess 4 0 0) (Some (mkSess 2 1 11)) [(2, mkSess 2 1 11)] [], [Some (mkSess 2 1 11)]).
 Proof. vm_compute. reflexivity. Qed.
 
 (* non-vacuity of the hypotheses of C30_saved_dc_is_primary *)
